@@ -247,35 +247,95 @@ Proof.
     rewrite E2. exact H.
 Qed.
 
+(* a loop that judges each item and collects one object per accepted item in a set *)
+Lemma py_for_set_kind {A : Type} (f : list pyobj -> A -> list pyobj + pyvexn) (g : A -> vresult) (c : A -> pyobj) l :
+  (forall s x, In x l -> match g x with
+                         | VOk => f s x = inl (add_set (c x) s)
+                         | r => exists e, f s x = inr e /\ exn_kind e = Some r
+                         end) ->
+  forall s, match all_checks g l with
+            | VOk => py_for l f s = inl (fold_left (fun s o => add_set o s) (map c l) s)
+            | r => exists e, py_for l f s = inr e /\ exn_kind e = Some r
+            end.
+Proof.
+  induction l as [|x t IH]; intros H s; [reflexivity|].
+  cbn [all_checks py_for map fold_left]. pose proof (H s x (or_introl eq_refl)) as Hx.
+  assert (Ht : forall s y, In y t -> match g y with
+                                     | VOk => f s y = inl (add_set (c y) s)
+                                     | r => exists e, f s y = inr e /\ exn_kind e = Some r
+                                     end) by (intros s0 y Hy; apply H; right; exact Hy).
+  destruct (g x); cbn [andthen]; try (destruct Hx as (e & -> & He); exists e; split; [reflexivity|exact He]).
+  rewrite Hx. apply IH, Ht.
+Qed.
+
+Lemma nominator_cases nm o :
+  if nominate nm o then exists u, Nominator_validate nm o = inl u
+  else exists e, Nominator_validate nm o = inr e /\ exn_kind e = Some VCandError.
+Proof.
+  pose proof (GenTie_nominator nm o) as H. unfold check in H. destruct (Nominator_validate nm o) as [u|e]; simpl in H.
+  - destruct (nominate nm o); [exists u; reflexivity|discriminate].
+  - destruct (nominate nm o); [destruct e; discriminate|exists e; split; trivial].
+Qed.
+
+(* the part after the duplicate test: the sum of the scores against the checker for this number of scorings *)
+Ltac score_sum_part nm sums l H0 :=
+  rewrite GenTie_checker_active;
+  change (DefaultedCheckers___getitem__ (fst sums) (snd sums) (py_len_items l)) with (kb_get sums (Z.of_nat (length l)));
+  cbv zeta; destruct (active (kb_get sums (Z.of_nat (length l)))) eqn:Ea; [|reflexivity];
+  apply res_kind_last;
+  erewrite (py_mapM_total _ score_of); [|intros x Hx; destruct (H0 x Hx) as (c & s & -> & _); reflexivity];
+  let Hs := fresh "Hs" in
+  pose proof (py_sum_kind (kb_get sums (Z.of_nat (length l))) (map score_of l)) as Hs;
+  rewrite <- sum_scores_sumopt, Ea in Hs;
+  destruct (py_sum (map score_of l)) as [sv|e]; [|exact Hs];
+  destruct (sum_scores l); apply (res_kind_last _ _ Hs).
+
 Theorem GenTie_score_base : forall nm nsc sums v,
   res_kind (ScoreVoteValidator_validate nm nsc sums v) = Some (validate_score_base nm nsc sums v).
 Proof.
   intros nm nsc sums v. unfold ScoreVoteValidator_validate, validate_score_base.
   destruct v as [k i|n d| |l|l|l]; try not_container.
   simpl. apply res_kind_bind; [rewrite GenTie_checker; reflexivity|]. intros _ _ _.
-  apply res_kind_bind.
-  - apply (py_for_unit_kind _ (score_item_check nm)). intros x _. cbv beta zeta.
-    destruct x as [k i|n d| |il|il|il]; try not_container.
-    destruct il as [|c [|s [|y t]]]; try reflexivity.
-    + simpl. apply res_kind_last, GenTie_nominator.
-    + cbn [negb py_len]. cbv iota beta.
-      destruct (Z.eqb_spec (py_len_items (c :: s :: y :: t)) 2) as [E|E]; [unfold py_len_items in E; cbn [length] in E; lia|reflexivity].
-  - intros u _ Hok. apply all_pairs in Hok.
-    assert (H0 : forall x, In x l -> is_pair nm x) by (apply Forall_forall; exact Hok).
-    erewrite (py_mapM_total _ scored_cand); [|intros x Hx; destruct (H0 x Hx) as (c & s & -> & _); reflexivity].
-    unfold py_frozenset. rewrite py_for_add_hashable.
-    2:{ apply forallb_forall. intros c Hc. apply in_map_iff in Hc. destruct Hc as (x & <- & Hx).
-        destruct (H0 x Hx) as (c & s & -> & Hn). simpl. eapply nominate_hashable; exact Hn. }
-    apply nodup_check; [unfold py_len_items; rewrite map_length; reflexivity|].
-    rewrite GenTie_checker_active.
-    change (DefaultedCheckers___getitem__ (fst sums) (snd sums) (py_len_items l)) with (kb_get sums (Z.of_nat (length l))).
-    cbv zeta. destruct (active (kb_get sums (Z.of_nat (length l)))) eqn:Ea; [|reflexivity].
-    apply res_kind_last.
-    erewrite (py_mapM_total _ score_of); [|intros x Hx; destruct (H0 x Hx) as (c & s & -> & _); reflexivity].
-    pose proof (py_sum_kind (kb_get sums (Z.of_nat (length l))) (map score_of l)) as Hs.
-    rewrite <- sum_scores_sumopt, Ea in Hs.
-    destruct (py_sum (map score_of l)) as [sv|e]; [|exact Hs].
-    destruct (sum_scores l); apply (res_kind_last _ _ Hs).
+  first
+  [ (* the shape of the library: a pass over the items, then the set of the scored candidates from a generator expression *)
+    apply res_kind_bind;
+    [ apply (py_for_unit_kind _ (score_item_check nm)); intros x _; cbv beta zeta;
+      destruct x as [k i|n d| |il|il|il]; try not_container;
+      destruct il as [|c [|s [|y t]]]; try reflexivity;
+      [ simpl; apply res_kind_last, GenTie_nominator
+      | cbn [negb py_len]; cbv iota beta;
+        destruct (Z.eqb_spec (py_len_items (c :: s :: y :: t)) 2) as [E|E];
+        [unfold py_len_items in E; cbn [length] in E; lia|reflexivity] ]
+    | intros u _ Hok; apply all_pairs in Hok;
+      assert (H0 : forall x, In x l -> is_pair nm x) by (apply Forall_forall; exact Hok);
+      erewrite (py_mapM_total _ scored_cand); [|intros x Hx; destruct (H0 x Hx) as (c & s & -> & _); reflexivity];
+      unfold py_frozenset; rewrite py_for_add_hashable;
+      [ apply nodup_check; [unfold py_len_items; rewrite map_length; reflexivity|];
+        score_sum_part nm sums l H0
+      | apply forallb_forall; intros c Hc; apply in_map_iff in Hc; destruct Hc as (x & <- & Hx);
+        destruct (H0 x Hx) as (c & s & -> & Hn); simpl; eapply nominate_hashable; exact Hn ] ]
+  | (* a single pass that also collects the scored candidates in a set *)
+    match goal with |- context [py_for l ?f _] =>
+      pose proof (py_for_set_kind f (score_item_check nm) scored_cand l) as Hloop end;
+    match type of Hloop with ?P -> _ => assert (Hbody : P); [|specialize (Hloop Hbody []); clear Hbody] end;
+    [ intros s0 x _; cbv beta zeta;
+      destruct x as [k i|n d| |il|il|il];
+      try (cbn [score_item_check]; exists PyVoteTypeError; split; [try destruct k; reflexivity|reflexivity]);
+      destruct il as [|c [|s [|y t]]];
+      try (cbn [score_item_check]; exists PyVoteMagnitudeError; split; [reflexivity|reflexivity]);
+      [ cbn [score_item_check scored_cand]; unfold check; pose proof (nominator_cases nm c) as Hn; simpl;
+        destruct (nominate nm c) eqn:En;
+        [ destruct Hn as [u ->]; unfold py_set_add; rewrite (nominate_hashable nm c En); reflexivity
+        | destruct Hn as (e & -> & He); exists e; split; [reflexivity|exact He] ]
+      | cbn [score_item_check negb py_len]; cbv iota beta;
+        destruct (Z.eqb_spec (py_len_items (c :: s :: y :: t)) 2) as [E|E];
+        [unfold py_len_items in E; cbn [length] in E; lia|exists PyVoteMagnitudeError; split; reflexivity] ]
+    | destruct (all_checks (score_item_check nm) l) eqn:Hok;
+      try (destruct Hloop as (e & -> & He); exact He);
+      rewrite Hloop; cbn [andthen]; apply all_pairs in Hok;
+      assert (H0 : forall x, In x l -> is_pair nm x) by (apply Forall_forall; exact Hok);
+      apply nodup_check; [unfold py_len_items; rewrite map_length; reflexivity|];
+      score_sum_part nm sums l H0 ] ].
 Qed.
 
 Lemma base_ok_pairs nm nsc sums l : validate_score_base nm nsc sums (OFrozen l) = VOk -> forall x, In x l -> is_pair nm x.
